@@ -72,6 +72,7 @@ pub struct Profile {
     pub small_amounts: bool,
     pub oracle_prices: Vec<u128>,
     pub init_balances: bool,
+    pub big_rewards: bool,
 }
 
 pub fn profile(name: &str) -> Profile {
@@ -87,6 +88,7 @@ pub fn profile(name: &str) -> Profile {
         small_amounts: false,
         oracle_prices: vec![D, D / 2, 3 * D, D / 1000, 1000 * D],
         init_balances: false,
+        big_rewards: false,
     };
     match name {
         "mixed" => base,
@@ -104,6 +106,17 @@ pub fn profile(name: &str) -> Profile {
             fees: vec![1_000_000_000_000_000, 50_000_000_000_000_000, 200_000_000_000_000_000, D, 0],
             thrs: vec![D, D, 900_000_000_000_000_000, 0],
             w: [12, 10, 10, 10, 4, 3, 0, 8, 8, 1, 3, 3, 0, 4, 0, 1, 0, 0],
+            ..base
+        },
+        // peg fee paths: slashed bSei pool, stSei rate pushed above 1 by re-bonded rewards, big converts
+        "pegfee" => Profile {
+            name: "pegfee",
+            fees: vec![50_000_000_000_000_000, 200_000_000_000_000_000, D, 10_000_000_000_000_000],
+            thrs: vec![D],
+            keeper_rates: vec![50_000_000_000_000_000],
+            epochs: vec![30],
+            w: [8, 8, 6, 18, 1, 1, 0, 3, 5, 0, 9, 9, 0, 3, 0, 0, 0, 0],
+            big_rewards: true,
             ..base
         },
         // small pools and dust amounts (1..1000 base units)
@@ -401,7 +414,7 @@ impl Gen {
                 let with: Vec<Id> = VALS.iter().cloned().filter(|x| c.deleg.contains_key(x)).collect();
                 let v = if with.is_empty() { self.rng.pick(&VALS[..4]) } else { self.rng.pick(&with) };
                 let d = self.rng.pick(&[0u8, 0, 0, 1, 1, 2]);
-                let a = if self.p.small_amounts { 1 + self.rng.below128(50) } else { self.rng.log_amount(1_000_000_000_000_000) };
+                let a = if self.p.small_amounts { 1 + self.rng.below128(50) } else if self.p.big_rewards { 1_000_000_000_000_000 + self.rng.below128(30_000_000_000_000_000) } else { self.rng.log_amount(1_000_000_000_000_000) };
                 Op::Env(EnvOp::Accrue(v, d, a))
             }
             11 => tx(if self.rng.chance(9, 10) { UPDATER } else { u }, HUB, Call::Hub(HubMsg::Ugi)),
